@@ -1,23 +1,11 @@
 import EinoV.Proofs.C02Compile
+import EinoV.Spec.GraphDefWF
 import EinoV.Proofs.C02Confluence
 
 namespace EinoV.Engine
 namespace DagRun
 
 /-! ### every well-formed acyclic graph definition compiles to a well-formed runner -/
-
-/-- what AddNode / AddEdge / AddBranch / Compile accept (the parts the run-level theorems need):
-    distinct node keys other than START / END, edges and branch ends between existing nodes,
-    no edge into START or out of END, an acyclic edge/branch relation -/
-structure GraphDefWF {V} (g : GraphDef V) : Prop where
-  dag : g.dag = true
-  keys : (g.nodes.map (·.1)).Nodup
-  noStart : START ∉ g.nodes.map (·.1)
-  noEnd : END ∉ g.nodes.map (·.1)
-  edgeTo : ∀ e, e ∈ g.edges → e.2 = END ∨ e.2 ∈ g.nodes.map (·.1)
-  brTo : ∀ b, b ∈ g.branches → ∀ e, e ∈ b.2.ends → e = END ∨ e ∈ g.nodes.map (·.1)
-  acyclic : ∃ rank : Key → Nat, (∀ e, e ∈ g.edges → rank e.1 < rank e.2) ∧
-      (∀ b, b ∈ g.branches → ∀ e, e ∈ b.2.ends → rank b.1 < rank e)
 
 theorem lookupList_addPred_inv (m : List (Key × List Key)) (to from_ t p : Key)
     (h : p ∈ lookupList t (addPred m to from_)) : p ∈ lookupList t m ∨ (t = to ∧ p = from_) := by
@@ -250,6 +238,15 @@ theorem compile_wf {V} (slack : Nat) (g : GraphDef V) (w : GraphDefWF g) :
     rcases hp with hp | hp
     · exact rankC n p hp
     · exact rankD n p hp
+
+/-- the executable check of `GraphDefWF` (evaluated by the C02 oracle on every generated
+    all-predecessor case eino compiled) implies it: the check tests a computed rank on every edge
+    and branch end, so the rank is the witness -/
+theorem graphDefWFb_sound {V} (g : GraphDef V) (h : graphDefWFb g = true) : GraphDefWF g := by
+  simp only [graphDefWFb, Bool.and_eq_true, Bool.not_eq_true', List.all_eq_true, Bool.or_eq_true,
+    beq_iff_eq, List.contains_eq_mem, decide_eq_true_eq, decide_eq_false_iff_not] at h
+  obtain ⟨⟨⟨⟨⟨⟨⟨h1, h2⟩, h3⟩, h4⟩, h5⟩, h6⟩, h7⟩, h8⟩ := h
+  exact ⟨h1, nodupb_sound _ h2, h3, h4, h5, h6, ⟨_, h7, h8⟩⟩
 
 end DagRun
 end EinoV.Engine
